@@ -36,7 +36,7 @@ class Static:
             if op.get('form') == 'range':
                 return set(self.range_members(op['rng']))
             return {op['a']}
-        if op['op'] in ('set', 'touch'):
+        if op['op'] in ('set', 'touch', 'poke'):
             return {op['a']}
         if op['op'] == 'trim':
             out = set()
@@ -486,6 +486,14 @@ class HistoryRun:
             self.sig_items.append((kind[0], cache_digest(driver.model)))
             if 'exc' in out:
                 self.violate('exception', i, op, 'set_value returns', out, exc=out['exc'])
+        elif kind == 'poke':
+            # evaluate a cell that cannot be evaluated (a reference that cannot be resolved):
+            # whatever it raises is the fault, the model has to stay usable
+            out = driver.step({'op': 'eval', 'a': op['a'], 'form': 'cell'})
+            self.count('fault:evaluation-that-fails-while-the-graph-is-built'
+                       if 'exc' in out else 'poke-returned-a-value')
+            self.events.append((i, 'poke', op['a'], out.get('exc'), cache_digest(driver.model)))
+            self.sig_items.append(('p', 'exc' in out))
         else:
             raise ValueError(kind)
 
